@@ -161,21 +161,18 @@ def check(ctx):
     ctx.exhaustive = True
     ctx.notes["exhaustive_scopes"] = "identifiers <= %d over {n,s,;,=,1,a}; texts <= %d over {n,s,=,;,i,1,x,space}" % (L, M)
 
-def replay(ctx, rp):
-    c = rp.get("case", {})
+def oracle_case(c):
     if "text" in c:
-        return oracle_sound(c["text"], impl_parse(c["text"], None, None)) is not None
-    if "ns" in c:
-        printed, ok = impl_print(c["ns"], c["type"], c["value"])
-        if not ok: return False
-        amap = [(k, tuple(v)) for k, v in c["amap"]] if c.get("amap") else None
-        nsmap = [tuple(p) for p in c["nsmap"]] if c.get("nsmap") else None
-        out = impl_parse(printed, nsmap, amap)
-        ad = dict(amap) if amap else {}
-        if printed in ad: want = ["ok", list(ad[printed])]
-        elif nsmap:
-            d = dict(nsmap); want = ["ok", [d[c["ns"]], c["type"], c["value"]]] if c["ns"] in d else ["err"]
-        else: want = ["ok", [c["ns"], c["type"], c["value"]]]
-        return out != want
-    # no failing input recorded: re-run the quick check
-    check(ctx); return bool(ctx.failures or ctx.disagreements)
+        bad = oracle_sound(c["text"], impl_parse(c["text"], None, None))
+        return [("C09/misread", bad)] if bad else []
+    printed, ok = impl_print(c["ns"], c["type"], c["value"])
+    if not ok: return []
+    amap = [(k, tuple(v)) for k, v in c["amap"]] if c.get("amap") else None
+    nsmap = [tuple(p) for p in c["nsmap"]] if c.get("nsmap") else None
+    out = impl_parse(printed, nsmap, amap)
+    ad = dict(amap) if amap else {}
+    if printed in ad: want = ["ok", list(ad[printed])]; sig = "C09/alias"
+    elif nsmap:
+        d = dict(nsmap); want = ["ok", [d[c["ns"]], c["type"], c["value"]]] if c["ns"] in d else ["err"]; sig = "C09/map"
+    else: want = ["ok", [c["ns"], c["type"], c["value"]]]; sig = "C09/roundtrip"
+    return [(sig, "parse(print(n)) = %r, expected %r" % (out, want))] if out != want else []
